@@ -61,6 +61,8 @@ func patternClasses(p byte) (ocspCls, crlCls int) {
 		return 3, 1
 	case 'X':
 		return 3, 2
+	case 'N':
+		return 3, 0 // like F, but the responder answers 503 with a body (an answer, not a transport error): the body must be closed
 	case 'D':
 		return 3, 1 // like L, but the certificate is listed by the delta CRL of a bundle whose base has three other entries
 	}
@@ -193,7 +195,7 @@ func c17Scenarios(tier mc.Tier) []mc.Scenario {
 		out = append(out, mc.Scenario{Name: "C17-" + s.name, Bound: bound, Body: s.body,
 			Params: map[string]string{"pattern": s.pattern, "entry": s.entry, "callers": fmt.Sprint(s.callers), "cache": fmt.Sprint(s.cache), "maxInjections": fmt.Sprint(s.inject), "fetcher": s.fetcher}})
 	}
-	pats := []string{"G", "F", "GG", "FG", "FF", "RL", "GGG", "FGR", "FFF", "XLG"}
+	pats := []string{"G", "F", "N", "GG", "FG", "FF", "NG", "RL", "GGG", "FGR", "FFF", "XLG"}
 	if tier == mc.Thorough {
 		pats = append(pats, "GGGG", "FFGG", "FLXR", "FFFF")
 	} else {
@@ -274,6 +276,11 @@ func (s *c17Scenario) body(c *mc.Ctx) {
 		if src.kind == "ocsp" {
 			if oc == 4 {
 				return w.serveOCSP(src, ocspByName("revoked-invalidity+1/issuer"))
+			}
+			if s.pattern[src.cert] == 'N' {
+				a := w.serveOCSP(src, ocspByName("good/issuer"))
+				a.Status = 503
+				return a
 			}
 			return w.serveOCSP(src, ocspByName(ocspClassNames[oc]))
 		}
@@ -480,6 +487,10 @@ func (s *c17Scenario) body(c *mc.Ctx) {
 				c.Fail(sigBase+" shared CRL bundle modified by a check ("+part.n+")", "a bundle shared between calls (cache / fetcher) was written to: %s CRL: %s", part.n, why)
 			}
 		}
+	}
+	// every response body handed to the calls has been closed (an open body keeps a real connection and its two goroutines alive)
+	if nb := tr.OpenBodies(); nb != 0 && !rep.Deadlock {
+		c.Fail(sigBase+" response bodies left open", "%d response body(ies) not closed when the call(s) returned", nb)
 	}
 	// the certificate objects belong to the callers (two callers share them): a check leaves them as they were
 	for i, x := range chain {
